@@ -21,8 +21,8 @@ CHECKS = {
         "String-vs-literal (3 widths, all ordered pairs), of all ordered pairs of a value universe covering every kind (incl. pointer "
         "values) and every Sort result (all arrays <= 5 over {'',a,ab,b} + random; Array, Value arrays, numbers, object keys with a "
         "removed member) is recorded and evaluated by TLC against the specification (batch oracle).",
-   note="exhaustive only within the stated universes; plain char restricted to 0x01..0x7F; cross-kind / container comparisons are "
-        "held to the order axioms only, as the property fixes no direction for them; <loop sort=> is exercised by the template checks.",
+   note="exhaustive only within the stated universes; plain char restricted to 0x01..0x7F; numbers compare by value whatever their kinds (u64 / i64 / real, ranks of the "
+        "values in the universe); other cross-kind and container comparisons are held to the order axioms only, as the property fixes no direction for them; <loop sort=> is exercised by the template checks.",
    technique="TLA+ order specification + Memory::Sort transcription checked by TLC; TLC batch oracle over recorded comparison and sort events",
    design="6 (C15)"),
  "C20": dict(
@@ -67,7 +67,8 @@ CHECKS = {
         "explores the specification exhaustively under a weight bound (invariants: well-formed, no duplicate keys; action properties: "
         "copies independent, moved-from Undefined); every (state, action) edge of that graph is replayed into two real Value<char> "
         "roots under ASan with the overloads rotated, and random histories (3-step paths, all literal kinds, typed getters) recorded "
-        "from the real code are validated line by line by TraceQValue.",
+        "from the real code are validated line by line by TraceQValue. A pointer-to-value must read as its target (document view, typed "
+        "getters judged with the specification's coercion rules, size, ==): OraclePtr over generated targets.",
    note="bounded exhaustive (weight <= 3 quick / 4 thorough, depth <= 2) + sampled histories; positional access into objects with "
         "removed entries and key lookups in arrays are not generated (outside the contract); Value<char> only.",
    technique="TLA+ document specification checked by TLC; state-graph replay into Value; TLC trace validation of recorded histories",
